@@ -15,6 +15,7 @@ VAR = {0: "Inv", 1: "Cov", 2: "Contra"}
 ARRAY_CID = 90
 FUNC_CID = 91           # Function0 = 91, Function1 = 92, ...
 MAX_FUNC = 3
+EXTRA_CID = 96          # further generic built-in classes (Kotlin SpecializedArrayType, Scala Seq)
 
 
 class Lang:
@@ -80,6 +81,26 @@ class Lang:
         self.array_is_java = bool(arr == java_types.Array)
         self.array = arr
         self.funcs = [f.get_function_type(i) for i in range(MAX_FUNC + 1)]
+        # generic built-in classes: Array, FunctionN, and whatever else the factory offers
+        # (Kotlin's SpecializedArrayType -- same NAME as Array --, Scala's Seq)
+        self.gen_cons = {ARRAY_CID: arr}
+        for i, fn in enumerate(self.funcs):
+            self.gen_cons[FUNC_CID + i] = fn
+        nxt = EXTRA_CID
+        for t in f.get_non_nothing_types():
+            con = None
+            if isinstance(t, tp.ParameterizedType):
+                con = t.t_constructor
+            elif isinstance(t, tp.TypeConstructor):
+                con = t
+            if con is None:
+                continue
+            if any(type(c) is type(con) and c.name == con.name for c in self.gen_cons.values()):
+                continue
+            self.gen_cons[nxt] = con
+            nxt += 1
+        self.con_key = {(type(c), c.name): cid for cid, c in self.gen_cons.items()}
+        self._bclasses = None
 
     def _mk(self, c, prim):
         import inspect
@@ -104,14 +125,17 @@ class Lang:
 
     # ----- generic built-in classes as table entries
     def builtin_classes(self):
-        """cid -> (params terms, supers terms) for Array and FunctionN"""
+        """cid -> (params terms, supers terms) for Array, FunctionN and the other generic built-ins"""
+        if self._bclasses is not None:
+            return self._bclasses
         out = {}
-        for cid, con in [(ARRAY_CID, self.array)] + [(FUNC_CID + i, f) for i, f in enumerate(self.funcs)]:
+        for cid, con in self.gen_cons.items():
             params = []
             for k, p in enumerate(con.type_parameters):
                 params.append(("V", cid * 10 + k, p.variance.value, None))
             sups = [self.term_of_builtin(s) for s in con.supertypes]
             out[cid] = (params, sups)
+        self._bclasses = out
         return out
 
     def coq_btable(self):
@@ -187,9 +211,8 @@ class Builder:
         bc = L.builtin_classes()
         for cid in bc:
             self.table.setdefault(cid, bc[cid])
-        self.cons[ARRAY_CID] = L.array
-        for i, f in enumerate(L.funcs):
-            self.cons[FUNC_CID + i] = f
+        for cid, con in L.gen_cons.items():
+            self.cons[cid] = con
         self.variance = {0: self.tp.Invariant, 1: self.tp.Covariant, 2: self.tp.Contravariant}
 
     def cls(self, cid):
@@ -231,7 +254,7 @@ def reify(L, o, classes=None):
     tp = L.tp
     if o is tp.Nothing:
         return ("N",)
-    if isinstance(o, tp.Builtin):
+    if isinstance(o, tp.Builtin) and not isinstance(o, tp.TypeConstructor):
         return L.term_of_builtin(o)
     if isinstance(o, tp.WildCardType):
         return ("W", o.variance.value, None if o.bound is None else reify(L, o.bound, classes))
@@ -247,12 +270,10 @@ def reify(L, o, classes=None):
 
 
 def _cid(L, con):
-    n = con.name
-    if n == "Array":
-        return ARRAY_CID
-    if n.startswith("Function"):
-        return FUNC_CID + int(n[len("Function"):])
-    return int(n[1:])
+    k = (type(con), con.name)
+    if k in L.con_key:
+        return L.con_key[k]
+    return int(con.name[1:])
 
 
 # --------------------------------------------------------------------------- random tables
@@ -276,6 +297,10 @@ def gen_table(rng, L, conforming=True):
                     bound = gen_ground(rng, L, tab, ground_pool, 1)
                 elif r < 0.35 and params:
                     bound = params[-1]                                   # T2 : T1
+                elif r < 0.45 and params:
+                    gens1 = [g for g in tab if len(tab[g][0]) == 1]
+                    if gens1:
+                        bound = ("A", rng.choice(gens1), [params[-1]])   # T2 : Box<T1>
                 x = cid * 10 + k if rng.random() < 0.9 else rng.choice([11, 21, 31])
                 if any(p[1] == x for p in params):
                     x = cid * 10 + k
@@ -330,7 +355,8 @@ def gen_type(rng, L, tab, depth, scope, malformed=False):
     pool = L.builtin_terms(prims=True)
     r = rng.random()
     nong = [c for c in tab if not tab[c][0]]
-    gen = [c for c in tab if tab[c][0]] + [ARRAY_CID] + ([FUNC_CID + 1] if rng.random() < 0.2 else [])
+    gen = [c for c in tab if tab[c][0]] + [ARRAY_CID] + ([FUNC_CID + 1] if rng.random() < 0.2 else []) + \
+        [c for c in L.gen_cons if c >= EXTRA_CID]
     if r < 0.18:
         return rng.choice(pool)
     if r < 0.36 and nong:
@@ -426,7 +452,9 @@ def perturb(rng, L, tab, s, scope, malformed=False):
                 return rng.choice(subs)
         return gen_type(rng, L, tab, 1, scope, malformed)
     if k == "V":
-        if s[3] is not None and r < 0.6:
+        if s[3] is not None and s[3][0] == "A" and r < 0.35:
+            return rng.choice(s[3][2])          # something mentioned inside the bound
+        if s[3] is not None and r < 0.7:
             return s[3]
         return gen_type(rng, L, tab, 1, scope, malformed)
     return gen_type(rng, L, tab, 1, scope, malformed)
